@@ -428,6 +428,7 @@ func use(fm *Frame, spec string, r diag.Ranger) (*Ns, error) {
 	}
 
 	// Handle imports of pre-defined modules like `builtin` and `str`.
+	verifTrace(fm.Evaler, fm, "modules.read")
 	if ns, ok := fm.Evaler.modules[spec]; ok {
 		return ns, nil
 	}
@@ -454,6 +455,7 @@ func use(fm *Frame, spec string, r diag.Ranger) (*Ns, error) {
 
 // TODO: Make access to fm.Evaler.modules concurrency-safe.
 func useFromFile(fm *Frame, spec, path string, r diag.Ranger) (*Ns, error) {
+	verifTrace(fm.Evaler, fm, "modules.read")
 	if ns, ok := fm.Evaler.modules[path]; ok {
 		return ns, nil
 	}
@@ -484,6 +486,7 @@ func useFromFile(fm *Frame, spec, path string, r diag.Ranger) (*Ns, error) {
 		t := reflect.TypeOf(sym).Elem()
 		return nil, PluginLoadError{spec, fmt.Errorf("Ns symbol has wrong type %s", t)}
 	}
+	verifTrace(fm.Evaler, fm, "modules.write")
 	fm.Evaler.modules[path] = *ns
 	return *ns, nil
 }
@@ -507,10 +510,14 @@ func evalModule(fm *Frame, key string, src parse.Source, r diag.Ranger) (*Ns, er
 	}
 	// Installs the namespace before executing. This prevent circular use'es
 	// from resulting in an infinite recursion.
+	verifTrace(fm.Evaler, fm, "modules.write")
 	fm.Evaler.modules[key] = ns
+	verifTrace(fm.Evaler, fm, "module.exec-begin")
 	err = exec()
+	verifTrace(fm.Evaler, fm, "module.exec-end")
 	if err != nil {
 		// Unload the namespace.
+		verifTrace(fm.Evaler, fm, "modules.write")
 		delete(fm.Evaler.modules, key)
 		return nil, err
 	}
